@@ -259,7 +259,7 @@ def main():
     L = 4 if TIER == "quick" else 5
     bat = Battery({"sequence length": L, "ops": "put(delay)/put/advance D/2/advance D/remove(0|1)/get/close", "virtual clock": True, "interleavings": sorted(SCEN)})
     for seq in seqs(L):
-        bat.case(hash(seq), nontrivial=any(o[0] == "get" for o in seq))
+        bat.case(hash(seq), nontrivial=any(o[0] == "get" for o in seq), desc=[list(o) for o in seq])
         pr = run_seq(seq)
         if pr:
             bat.fail("C17.sequential", pr[0], {"kind": "seq", "seq": [list(o) for o in seq], "problems": pr[:3]}, "DelayedQueue")
